@@ -46,6 +46,30 @@ def one(req):
                         pixtopgm.convert(f, out)
                 finally:
                     os.unlink(name)
+            elif tool == "veftopng":
+                from coco import veftopng
+                d = os.environ.get("XDG_RUNTIME_DIR") or "/dev/shm"
+                with tempfile.NamedTemporaryFile(dir=d, suffix=".vef", delete=False) as f:
+                    f.write(data)
+                    name = f.name
+                outname = name + ".png"
+                try:
+                    veftopng.start([name, outname])
+                    if os.path.exists(outname):
+                        import png
+                        try:
+                            w, h, rows, info = png.Reader(filename=outname).read()
+                            flat = bytearray()
+                            for r in rows:
+                                flat += bytes(r)
+                            res["png"] = dict(width=w, height=h, planes=info.get("planes"), samples=len(flat),
+                                              palette=[list(c[:3]) for c in (info.get("palette") or [])][:64], pixels_b64=base64.b64encode(bytes(flat)).decode())
+                        except Exception as e:  # noqa
+                            res["png"] = dict(error="%s: %s" % (type(e).__name__, str(e)[:120]))
+                finally:
+                    for fn in (name, outname):
+                        if os.path.exists(fn):
+                            os.unlink(fn)
             elif tool == "unsquash":
                 from coco import veftopng
                 r = veftopng.unsquash(bytearray(data), o["count"], o["orig_len"])
